@@ -19,6 +19,7 @@ package main
 // Local names, statement order, helper extraction and control-flow shape do not matter.
 
 import (
+	"bufio"
 	"bytes"
 	"fmt"
 	"go/ast"
@@ -610,7 +611,47 @@ func c17FactsNeedAmplification() bool {
 	return false
 }
 
+// c17RunLines executes the payloads of a file (one per line: idx<TAB>payload) in ONE process and prints idx<TAB>result.
+// With marker = true a stat of the non-existing path /c17-marker/<idx> precedes every line (seen by strace).
+func c17RunLines(file string, marker bool) int {
+	f, err := os.Open(file)
+	if err != nil {
+		fmt.Fprintln(os.Stderr, err)
+		return 1
+	}
+	defer f.Close()
+	c17Setup()
+	fmt.Printf("#base\t%s\n", c17Base)
+	sc := bufio.NewScanner(f)
+	sc.Buffer(make([]byte, 1<<20), 1<<26)
+	for sc.Scan() {
+		parts := strings.SplitN(sc.Text(), "\t", 2)
+		if len(parts) != 2 {
+			continue
+		}
+		if marker {
+			os.Stat("/c17-marker/" + parts[0])
+		}
+		res := func() (r string) {
+			defer func() {
+				if e := recover(); e != nil {
+					r = "PANIC " + oneLine(fmt.Sprint(e))
+				}
+			}()
+			return c17Run(parts[1])
+		}()
+		fmt.Printf("%s\t%s\n", parts[0], res)
+	}
+	if marker {
+		os.Stat("/c17-marker/end")
+	}
+	return 0
+}
+
 func c17ToolMain(args []string) int {
+	if len(args) == 2 && (args[0] == "runlines" || args[0] == "runlines-marked") {
+		return c17RunLines(args[1], args[0] == "runlines-marked")
+	}
 	if len(args) != 2 || args[0] != "extract" {
 		fmt.Fprintln(os.Stderr, "usage: harness C17 -tool extract <out.lean>")
 		return 2
